@@ -93,6 +93,10 @@ FS = {
     "once.mac": ".once\nonce1: .word 1\n",
     "data.bin": bytes(range(10)),
     "loop.mac": "nop\n.include \"loop.mac\"\n",
+    "ownlink.mac": "\t.link 3000\n\txor #1, r0\n\tnop\n",
+    "owndot.mac": "\t. = 3000\n\tnop\n\t.blkb -1\n",
+    "ownnest.mac": "\t.link 3000\n\tnop\n\t.include \"synerr.mac\"\n",
+    "synerr.mac": "\tnop\nx =\n",
     "long.mac": "".join(f"; line {q}\n" for q in range(1, 40)) + "lx1:: nop\nlk1 == 5\n\tnop\nlz1:: nop\n",
 }
 NEEDS_FS = re.compile(r"include|insert_file", re.I)
@@ -151,6 +155,10 @@ FAULTS = {
     "caret-r-case-folding-character": [".word ^R\u0130", ".word ^Ra\u212a"],
     "rad50-case-folding-character": [".rad50 /a\u0131/", ".rad50 /\ufb06/"],
     "mnemonic-case-folding-character": ["\u017fob r0, ."],
+    # an included file that sets its own link base first and is then aborted by an error
+    "include-own-link-aborted": ['.include "ownlink.mac"'],
+    "include-own-dot-aborted": ['.include "owndot.mac"'],
+    "include-own-link-nested-syntax-error": ['.include "ownnest.mac"'],
     "non-ascii-digit": [".word \u0668", ".byte 1\u0663, \u00b2"],
     # diagnostics with two spans in two files, the other span far down in a file longer than the text itself
     "cross-file-duplicate-export": ['.include "long.mac"', "lx1:: nop"],
